@@ -13,7 +13,7 @@ using babylon::InplaceExecutor;
 using babylon::MoveOnlyFunction;
 using babylon::ThreadPoolExecutor;
 
-struct Cfg { const char* name; int kind; int workers, gcap, lcap; bool steal; int balance; int submitters, tasks; bool child; };
+struct Cfg { const char* name; int kind; int workers, gcap, lcap; bool steal; int balance; int submitters, tasks; bool child; int first_thread_id = 0; };
 // kind 0: thread pool, 1: inplace, 2: always-new-thread, 3: executor whose invoke may fail
 static const Cfg cfgs[] = {
     {"pool w1 g1 l0: 1 submitter x2 tasks", 0, 1, 1, 0, false, -1, 1, 2, false},
@@ -25,6 +25,8 @@ static const Cfg cfgs[] = {
     {"inplace executor: task and nested child", 1, 0, 0, 0, false, -1, 1, 2, true},
     {"always-new-thread executor: 2 tasks then join()", 2, 0, 0, 0, false, -1, 1, 2, false},
     {"executor whose invoke may fail on any attempt: 3 submissions", 3, 0, 0, 0, false, -1, 1, 3, false},
+    {"pool w2 g2 l1 stealing, worker thread ids 127 and 128 (local queues in two storage blocks): 1 submitter x2 tasks, each spawns a child", 0, 2, 2, 1, true, -1, 1, 2, true, 127},
+    {"pool w2 g4 l2 stealing, worker thread ids 127 and 128: 1 submitter x1 task that spawns a child", 0, 2, 4, 2, true, -1, 1, 1, true, 127},
 };
 int harness_configs() { return sizeof(cfgs) / sizeof(cfgs[0]); }
 const char* harness_config_name(int c) { return cfgs[c].name; }
@@ -79,6 +81,12 @@ void harness_main(int c) {
       }
     }
   };
+  if (cf.first_thread_id) {
+    // start from a process in which many threads already exist: the pool's per-thread queues then live in different 128-entry
+    // blocks of the enumerable thread-local storage (ids are taken for real, through the allocator the pool uses)
+    auto& ids = babylon::internal::concurrent_id_allocator::IdAllocatorFotType<ThreadPoolExecutor::TaskQueue, false>::instance();
+    for (int i = 0; i < cf.first_thread_id; i++) ids.allocate();
+  }
   switch (cf.kind) {
     case 0: {
       {
